@@ -13,7 +13,12 @@ from . import tlaval
 VERIF = os.path.dirname(os.path.dirname(os.path.abspath(__file__)))
 REPO = os.environ.get("VERIF_REPO", "/repo")
 SPEC = os.path.join(VERIF, "spec")
-WORK = os.path.join(VERIF, ".work")
+# VERIF_OUT (optional): where scratch, evidence and replay files go instead of /verif (used by bin/seedregress to run checks
+# against patched scratch worktrees in parallel without touching the committed evidence)
+OUT = os.environ.get("VERIF_OUT") or VERIF
+WORK = os.path.join(OUT, ".work")
+EVID = os.path.join(OUT, "evidence")
+REPLAY = os.path.join(OUT, "out", "replay")
 TLA_JAR = "/opt/veriftools/tla/tla2tools.jar:/opt/veriftools/tla/CommunityModules-deps.jar"
 NCPU = os.cpu_count() or 4
 
@@ -107,8 +112,8 @@ class Ctx:
         self.workdir = os.path.join(WORK, "%s-%s-%d" % (pid, tier, os.getpid()))
         shutil.rmtree(self.workdir, ignore_errors=True)
         os.makedirs(self.workdir, exist_ok=True)
-        os.makedirs(os.path.join(VERIF, "out", "replay"), exist_ok=True)
-        os.makedirs(os.path.join(VERIF, "evidence"), exist_ok=True)
+        os.makedirs(REPLAY, exist_ok=True)
+        os.makedirs(EVID, exist_ok=True)
         self.violations = []       # (clause, case, replay path)
         self.known = {}            # key -> count
         self.known_desc = {}
@@ -227,7 +232,7 @@ class Ctx:
             return "known"
         rec = {"property": self.pid, "clause": clause, "pos": pos, "detail": detail, "case": case,
                "tier": self.tier, "seed": self.seed, "deviation_matched_but_not_listed": kf}
-        path = os.path.join(VERIF, "out", "replay", "%s-%s.json" % (self.pid, sha(rec)[:12]))
+        path = os.path.join(REPLAY, "%s-%s.json" % (self.pid, sha(rec)[:12]))
         with open(path, "w") as f:
             json.dump(rec, f, indent=1, default=str)
         self.violations.append((clause, path))
@@ -261,7 +266,10 @@ class Ctx:
         ev = {"property_id": self.pid, "tier": self.tier, "seed": self.seed, "level": self.level,
               "coverage": cov, "assumptions": self.assumptions, "wall_s": round(wall, 2),
               "violations": len(self.violations)}
-        path = os.path.join(VERIF, "evidence", "%s.json" % self.pid)
+        # extension checks (ids X..: behaviour beyond the listed properties) report under extras/, never under evidence/
+        evdir = EVID if not self.pid.startswith("X") else os.path.join(OUT, "extras")
+        os.makedirs(evdir, exist_ok=True)
+        path = os.path.join(evdir, "%s.json" % self.pid)
         with open(path, "w") as f:
             json.dump(ev, f, indent=1, default=str)
         _validate_evidence(path)
